@@ -837,6 +837,18 @@ def sz_join(a, b):
     if a.sz is b.sz:
         return a.sz
     try:
-        return a.sz if sp.cancel(sp.together(a.sz - b.sz)) == 0 else None
+        if sp.cancel(sp.together(a.sz - b.sz)) == 0:
+            return a.sz
+        # one side seen in a peeled (concrete) iteration, the other with the loop symbol: keep the general form when the
+        # concrete one is its instance at the first or second value of the loop variable
+        for gen, inst in ((a.sz, b.sz), (b.sz, a.sz)):
+            for s in gen.free_symbols:
+                bd = Aff.BOUNDS.get(s.name)
+                if bd is None or bd[0] is None or s in inst.free_symbols:
+                    continue
+                for off in (0, 1):
+                    if sp.cancel(sp.together(gen.subs(s, bd[0].to_sympy() + off) - inst)) == 0:
+                        return gen
+        return None
     except Exception:
         return None
